@@ -79,6 +79,9 @@ def run(rep, tier, build, replay=None):
                 d, t = lmfmut.mutate(rng, text)
                 jobs.append({'kind': 'load', 'text': t, 'try_add': True})
                 meta.append(('mutant', d, res))
+            for d, t in lmfmut.drop_id_each_kind(rng, text):
+                jobs.append({'kind': 'load', 'text': t, 'try_add': True})
+                meta.append(('mutant', d, res))
     # scan-specific documents: attribute values that need decoding
     for label, ver in [('a &amp; b', '1&amp;2'), ("it's &quot;q&quot;", '1.0'), ('x &#65; &#x42;', '2'), ('a > b', '3')]:
         text = lmfgen.to_xml({'lmf_version': '1.1', 'lexicons': [lmfgen.simple_lexicon('sc', 'VV', label='LL')]})
